@@ -276,6 +276,8 @@ func Generate(r *rng.R, tier string, n int, emit func(*common.Case)) {
 			in = genMatrixLine(cr, i/20)
 		case k < 2:
 			in = genValueLine(cr, i/20)
+		case k < 3:
+			in = genSpaceLikeLine(cr, i/20)
 		case k < 8:
 			in = genStructuredLine(cr)
 		case k < 11:
